@@ -5,6 +5,16 @@
 //! endpoint (own base64url -> zlib container -> roaring portable format) which is used only to
 //! classify the produced stream (deflate block type, 3rd base64 character) and to localise a
 //! failure (encoder vs decoder side); it never decides a verdict on its own.
+//!
+//! Besides single sets and batch histories the harness runs
+//!  * fault histories: endpoints that are *not* valid (cut-off text, well-formed zlib around an incomplete / foreign
+//!    roaring payload, damaged zlib streams, bad base64, wrong service shape; own serialiser + own zlib) are handed to
+//!    every decoding entry point (same thread and another thread) in between the observed operations. No verdict is
+//!    attached to what the library does with a faulty endpoint (the statement is silent about it) except that it must
+//!    not panic; the verdicts are on the valid service next to it, which must keep decoding to the model;
+//!  * namesake documents: several `RevocationBitmap2022` services whose ids share the fragment but differ in the DID
+//!    (and fragments that are prefixes / case variants of each other), every one holding a different set; every read,
+//!    batch and validation verdict addressed with a full DID URL is judged against the model of exactly that service.
 use identity_core::common::{Timestamp, Url};
 use identity_core::convert::{FromJson, ToJson};
 use identity_credential::credential::{Credential, CredentialBuilder, RevocationBitmapStatus, Status, Subject};
@@ -16,7 +26,7 @@ use identity_document::service::{Service, ServiceEndpoint};
 use identity_iota_core::{IotaDID, IotaDocument};
 use serde_json::{json, Value};
 use std::collections::BTreeSet;
-use std::io::Read;
+use std::io::{Read, Write};
 use vh::panicmon::catch;
 use vh::{Args, Report, Rng};
 
@@ -131,6 +141,181 @@ fn stream_info(data_part: &str, set: &BTreeSet<u32>) -> Option<StreamInfo> {
     Err(_) => None,
   };
   Some(StreamInfo { third, btype, ref_equal })
+}
+
+// ------------------------------------------------------------------------------------------
+// faulty endpoints (own serialiser + own zlib): inputs for the fault histories, never judged themselves
+// ------------------------------------------------------------------------------------------
+
+/// Roaring portable format without run containers (cookie 12346), written by the harness.
+fn ser_roaring(set: &BTreeSet<u32>) -> Vec<u8> {
+  let mut conts: Vec<(u16, Vec<u16>)> = Vec::new();
+  for &v in set {
+    let (k, lo) = ((v >> 16) as u16, v as u16);
+    match conts.last_mut() {
+      Some((kk, vs)) if *kk == k => vs.push(lo),
+      _ => conts.push((k, vec![lo])),
+    }
+  }
+  let n = conts.len();
+  let mut out: Vec<u8> = Vec::new();
+  out.extend_from_slice(&12346u32.to_le_bytes());
+  out.extend_from_slice(&(n as u32).to_le_bytes());
+  for (k, vs) in &conts {
+    out.extend_from_slice(&k.to_le_bytes());
+    out.extend_from_slice(&((vs.len() - 1) as u16).to_le_bytes());
+  }
+  let mut pos = 8 + 8 * n;
+  for (_, vs) in &conts {
+    out.extend_from_slice(&(pos as u32).to_le_bytes());
+    pos += if vs.len() <= 4096 { 2 * vs.len() } else { 8192 };
+  }
+  for (_, vs) in &conts {
+    if vs.len() <= 4096 {
+      for v in vs {
+        out.extend_from_slice(&v.to_le_bytes());
+      }
+    } else {
+      let mut words = vec![0u64; 1024];
+      for &v in vs {
+        words[(v >> 6) as usize] |= 1u64 << (v & 63);
+      }
+      for w in words {
+        out.extend_from_slice(&w.to_le_bytes());
+      }
+    }
+  }
+  out
+}
+
+fn zlib(data: &[u8], level: u32) -> Vec<u8> {
+  let mut e = flate2::write::ZlibEncoder::new(Vec::new(), flate2::Compression::new(level));
+  e.write_all(data).expect("own zlib write");
+  e.finish().expect("own zlib finish")
+}
+
+/// Kinds of faulty endpoint text. The `svc-*` kinds carry a well-formed text in a service of the wrong shape.
+const FAULT_KINDS: &[&str] = &[
+  "cut-quads", "cut-any", "roaring-short", "roaring-short", "roaring-cut", "roaring-cookie", "roaring-count", "roaring-garbage", "zlib-cut", "zlib-cut",
+  "zlib-flip-tail", "zlib-flip-mid", "not-zlib", "bad-base64", "trailing-bytes", "empty", "svc-wrong-type", "svc-not-data-url", "svc-endpoint-set",
+];
+
+/// A faulty endpoint text derived from `basis`. `lib_text`: the text the library produced for `basis`, used by
+/// the cut kinds when present (a truncated copy of a real endpoint). Returns (kind, legacy-wrapped?, text).
+fn gen_fault(rng: &mut Rng, basis: &BTreeSet<u32>, lib_text: Option<&str>) -> (&'static str, bool, String) {
+  let kind = *rng.pick(FAULT_KINDS);
+  let mut plain = ser_roaring(basis);
+  debug_assert!(parse_roaring(&plain).as_ref() == Some(basis), "own roaring serialiser does not round-trip through own parser");
+  let level = *rng.pick(&[1u32, 6, 6, 9]);
+  let enc = |b: &[u8]| vh::b64::url_encode(b);
+  let flip = |rng: &mut Rng, z: &mut Vec<u8>, lo: usize, hi: usize| {
+    if hi > lo {
+      let i = lo + rng.usize(hi - lo);
+      z[i] ^= 1u8 << rng.below(8);
+    }
+  };
+  let text = match kind {
+    "cut-quads" | "cut-any" => {
+      let full = match lib_text {
+        Some(t) if rng.bool() => t.to_string(),
+        _ => enc(&zlib(&plain, level)),
+      };
+      let mut keep = match rng.below(3) {
+        0 => full.len() / 2,
+        1 => full.len().saturating_sub(1 + rng.usize(8)),
+        _ => rng.usize(full.len().max(1)),
+      };
+      if kind == "cut-quads" {
+        keep = keep / 4 * 4;
+      }
+      full[..keep.min(full.len())].to_string()
+    }
+    "roaring-short" => {
+      let drop = 1 + rng.usize(plain.len().min(9));
+      plain.truncate(plain.len() - drop.min(plain.len()));
+      enc(&zlib(&plain, level))
+    }
+    "roaring-cut" => {
+      let keep = rng.usize(plain.len().max(1));
+      plain.truncate(keep);
+      enc(&zlib(&plain, level))
+    }
+    "roaring-cookie" => {
+      plain[rng.usize(4)] ^= 1u8 << rng.below(8);
+      enc(&zlib(&plain, level))
+    }
+    "roaring-count" => {
+      let n = u32::from_le_bytes([plain[4], plain[5], plain[6], plain[7]]).wrapping_add(1 + rng.below(3) as u32);
+      plain[4..8].copy_from_slice(&n.to_le_bytes());
+      enc(&zlib(&plain, level))
+    }
+    "roaring-garbage" => {
+      let n = 1 + rng.usize(200);
+      enc(&zlib(&rng.bytes(n), level))
+    }
+    "zlib-cut" => {
+      let mut z = zlib(&plain, level);
+      let keep = match rng.below(3) {
+        0 => z.len().saturating_sub(1 + rng.usize(4)), // inside the checksum
+        1 => z.len() / 2,
+        _ => 2 + rng.usize(z.len().saturating_sub(2).max(1)),
+      };
+      z.truncate(keep.min(z.len()));
+      enc(&z)
+    }
+    "zlib-flip-tail" => {
+      let mut z = zlib(&plain, level);
+      let n = z.len();
+      flip(rng, &mut z, n.saturating_sub(4), n);
+      enc(&z)
+    }
+    "zlib-flip-mid" => {
+      let mut z = zlib(&plain, level);
+      let n = z.len();
+      flip(rng, &mut z, 2, n.saturating_sub(4));
+      enc(&z)
+    }
+    "not-zlib" => enc(&plain),
+    "bad-base64" => {
+      let mut t = enc(&zlib(&plain, level));
+      let at = rng.usize(t.len() + 1);
+      t.insert(at, *rng.pick(&['*', '=', '+', '/', '.', '~']));
+      t
+    }
+    "trailing-bytes" => {
+      // a complete bitmap followed by more bytes: accepted or rejected, the statement does not say
+      let n = 1 + rng.usize(40);
+      plain.extend_from_slice(&rng.bytes(n));
+      enc(&zlib(&plain, level))
+    }
+    "empty" => String::new(),
+    _ => enc(&zlib(&plain, level)), // svc-*: a well-formed text
+  };
+  // the same fault inside the legacy double encoding
+  if !kind.starts_with("svc-") && rng.chance(1, 5) {
+    (kind, true, vh::b64::std_encode_nopad(text.as_bytes()))
+  } else {
+    (kind, false, text)
+  }
+}
+
+fn fault_service(id: &str, kind: &str, text: &str) -> Option<Service> {
+  let ep = format!("{DATA_URL}{text}");
+  let v = match kind {
+    "svc-wrong-type" => json!({"id": id, "type": "LinkedDomains", "serviceEndpoint": ep}),
+    "svc-not-data-url" => json!({"id": id, "type": TYPE, "serviceEndpoint": format!("https://example.com/bitmap/{text}")}),
+    "svc-endpoint-set" => json!({"id": id, "type": TYPE, "serviceEndpoint": [ep]}),
+    _ => json!({"id": id, "type": TYPE, "serviceEndpoint": ep}),
+  };
+  Service::from_json_value(v).ok()
+}
+
+fn bitmap_of(set: &BTreeSet<u32>) -> RevocationBitmap {
+  let mut b = RevocationBitmap::new();
+  for &i in set {
+    b.revoke(i);
+  }
+  b
 }
 
 fn endpoint_data(service: &Service) -> Option<String> {
@@ -445,6 +630,8 @@ fn base_credential(issuer: &str) -> Credential {
 struct Cx {
   rep: Report,
   cap: usize,
+  /// prefix of the `check_status` signatures: names the scenario ("" = plain set / batch history)
+  sigp: &'static str,
 }
 
 /// Compares a library bitmap against the model: len, every member, non-member probes.
@@ -560,6 +747,7 @@ impl Cx {
   fn set_case(&mut self, shape: &str, set: &BTreeSet<u32>, rng: &mut Rng) {
     self.rep.eval();
     self.rep.inc("sets");
+    self.sigp = "";
     let did = "did:example:c06set";
     let url = DIDUrl::parse(format!("{did}#revocation")).expect("did url");
 
@@ -659,6 +847,20 @@ impl Cx {
       let ls = Service::from_json_value(json!({"id": url.to_string(), "type": TYPE, "serviceEndpoint": format!("{DATA_URL}{legacy}")})).expect("legacy service");
       if self.decode_and_compare("set", "legacy", &ls, set, &[], "roundtrip-mismatch:legacy", &Value::Null) == Some(true) {
         self.rep.inc("legacy_ok");
+      }
+    }
+
+    // ---- the same endpoint decoded again right after the library was handed a faulty relative of it
+    if ok == Some(true) && rng.chance(1, 3) {
+      let (kind, legacy, text) = gen_fault(rng, set, data.as_deref());
+      if let Some(fs) = fault_service(&url.to_string(), kind, &text) {
+        let via = if rng.chance(1, 4) { 1 } else { 0 };
+        let out = self.fault_decode(via, &fs, kind, legacy, &text);
+        self.sigp = "after-faulty-endpoint:";
+        let case = json!({"context": "set", "set": preview(set), "endpoint_data": data.as_deref().map(head), "fault_before": out, "fault_text": head(&text)});
+        let r = catch(|| RevocationBitmap::try_from(&service).map(|b| compare(&b, set, &[])).map_err(|e| e.to_string()));
+        self.judge_read("try_from", r, set, &case, "after_fault_reads_ok");
+        self.sigp = "";
       }
     }
 
@@ -764,6 +966,7 @@ impl Cx {
   }
 
   fn status_checks(&mut self, doc: &Doc, url: &DIDUrl, set: &BTreeSet<u32>, probes: &[u32], ctx: &str) {
+    let sigp = self.sigp;
     let mut cred = base_credential(&doc.did());
     for &i in probes {
       let member = set.contains(&i);
@@ -779,10 +982,10 @@ impl Cx {
             let skip_all = mname == "SkipAll";
             match (&res, skip_all) {
               (Ok(()), true) => self.rep.inc("check_status_skipall_ok"),
-              (Err(e), true) => self.rep.violation("check_status-skipall-not-ok", &format!("SkipAll returned an error for index {}: {}", i, e), case),
+              (Err(e), true) => self.rep.violation(&format!("{sigp}check_status-skipall-not-ok"), &format!("SkipAll returned an error for index {}: {}", i, e), case),
               (Ok(()), false) => {
                 if member {
-                  self.rep.violation("check_status-member-not-revoked", &format!("index {} is a member of {} but check_status({}) = Ok", i, preview(set), mname), case);
+                  self.rep.violation(&format!("{sigp}check_status-member-not-revoked"), &format!("index {} is a member of {} but check_status({}) = Ok", i, preview(set), mname), case);
                 } else {
                   self.rep.inc("check_status_not_revoked");
                 }
@@ -791,7 +994,7 @@ impl Cx {
                 if member {
                   self.rep.inc("check_status_revoked");
                 } else {
-                  self.rep.violation("check_status-nonmember-revoked", &format!("index {} is not a member of {} but check_status({}) = Revoked", i, preview(set), mname), case);
+                  self.rep.violation(&format!("{sigp}check_status-nonmember-revoked"), &format!("index {} is not a member of {} but check_status({}) = Revoked", i, preview(set), mname), case);
                 }
               }
               (Err(e), false) => {
@@ -802,7 +1005,7 @@ impl Cx {
                   let s = svc.expect("service");
                   self.undecodable(&format!("{}/check_status", ctx), endpoint_data(&s).as_deref(), set, &e.to_string(), case);
                 } else {
-                  self.rep.violation("check_status-unexpected-error", &format!("check_status({}) for index {} (member={}) = {}", mname, i, member, e), case);
+                  self.rep.violation(&format!("{sigp}check_status-unexpected-error"), &format!("check_status({}) for index {} (member={}) = {}", mname, i, member, e), case);
                 }
               }
             }
@@ -812,7 +1015,8 @@ impl Cx {
     }
 
     // ---- index query vs revocationBitmapIndex: mismatch must be rejected, no query follows the property index
-    let did = doc.did();
+    // the DID of the service id (equals the document's DID except for foreign-DID namesake services)
+    let did = url.did().as_str().to_string();
     let frag = url.fragment().unwrap_or("");
     // a = member if possible, b = non-member: without the mismatch check the library would answer Ok
     let a = set.iter().next().copied().unwrap_or(3);
@@ -830,7 +1034,7 @@ impl Cx {
     for (mode, mname) in [(StatusCheck::Strict, "Strict"), (StatusCheck::SkipUnsupported, "SkipUnsupported")] {
       match catch(|| doc.check_status(&cred, mode)) {
         Ok(Err(_)) => self.rep.inc("mismatch_rejected"),
-        Ok(Ok(())) => self.rep.violation("index-mismatch-accepted:check_status", &format!("check_status({}) accepted ?index={} with revocationBitmapIndex={}", mname, a, b), json!({"a": a, "b": b, "doc": doc.kind()})),
+        Ok(Ok(())) => self.rep.violation(&format!("{sigp}index-mismatch-accepted:check_status"), &format!("check_status({}) accepted ?index={} with revocationBitmapIndex={}", mname, a, b), json!({"a": a, "b": b, "doc": doc.kind()})),
         Err(p) => self.rep.violation(&format!("check_status-panic@{}", p.file_only()), &p.msg, json!({"a": a, "b": b})),
       }
     }
@@ -847,18 +1051,476 @@ impl Cx {
       let st = Status::from_json_value(json!({"id": format!("{did}#{frag}"), "type": TYPE, "revocationBitmapIndex": i.to_string()})).expect("status");
       cred.credential_status = Some(st);
       match catch(|| doc.check_status(&cred, StatusCheck::Strict)) {
-        Ok(Ok(())) if member => self.rep.violation("check_status-member-not-revoked", &format!("no-query status, index {} is a member but Ok", i), json!({"index": i, "form": "no-query", "set": preview(set)})),
-        Ok(Err(JwtValidationError::Revoked)) if !member => self.rep.violation("check_status-nonmember-revoked", &format!("no-query status, index {} is not a member but Revoked", i), json!({"index": i, "form": "no-query", "set": preview(set)})),
+        Ok(Ok(())) if member => self.rep.violation(&format!("{sigp}check_status-member-not-revoked"), &format!("no-query status, index {} is a member but Ok", i), json!({"index": i, "form": "no-query", "set": preview(set)})),
+        Ok(Err(JwtValidationError::Revoked)) if !member => self.rep.violation(&format!("{sigp}check_status-nonmember-revoked"), &format!("no-query status, index {} is not a member but Revoked", i), json!({"index": i, "form": "no-query", "set": preview(set)})),
         Ok(_) => self.rep.inc("noquery_status_checked"),
         Err(p) => self.rep.violation(&format!("check_status-panic@{}", p.file_only()), &p.msg, json!({"index": i})),
       }
     }
   }
 
+  /// Verdict on one read of a valid service: it must decode, and to exactly `set`. Signatures carry the scenario prefix.
+  fn judge_read(&mut self, what: &str, r: Result<Result<(u64, Option<String>), String>, vh::panicmon::PanicRec>, set: &BTreeSet<u32>, case: &Value, ok_counter: &str) -> bool {
+    let sigp = self.sigp;
+    match r {
+      Err(p) => {
+        self.rep.violation(&format!("{sigp}{what}-panic@{}", p.file_only()), &format!("{} of a valid service panicked: {} at {}", what, p.msg, p.loc()), case.clone());
+        false
+      }
+      Ok(Err(e)) => {
+        self.rep.violation(
+          &format!("{sigp}read-error"),
+          &format!("{} of a valid service holding {} fails: {} ; case: {}", what, preview(set), e, head(&case.to_string())),
+          json!({"via": what, "expected_set": preview(set), "error": e, "case": case}),
+        );
+        false
+      }
+      Ok(Ok((_, Some(m)))) => {
+        self.rep.violation(
+          &format!("{sigp}read-mismatch"),
+          &format!("{} of a valid service expected to hold {} yields a different set: {} ; case: {}", what, preview(set), m, head(&case.to_string())),
+          json!({"via": what, "expected_set": preview(set), "mismatch": m, "case": case}),
+        );
+        false
+      }
+      Ok(Ok((n, None))) => {
+        self.rep.count("membership_probes", n);
+        self.rep.inc(ok_counter);
+        true
+      }
+    }
+  }
+
+  /// Hands a faulty service to `RevocationBitmap::try_from` (via 0: this thread, 1: another thread).
+  /// No verdict on the outcome (the statement is silent about invalid endpoints) other than "no panic".
+  fn fault_decode(&mut self, via: u64, fs: &Service, kind: &str, legacy: bool, text: &str) -> String {
+    let r = if via == 1 {
+      let s = fs.clone();
+      std::thread::spawn(move || catch(|| RevocationBitmap::try_from(&s).map(|_| ()).map_err(|e| e.to_string())))
+        .join()
+        .expect("fault thread")
+    } else {
+      catch(|| RevocationBitmap::try_from(fs).map(|_| ()).map_err(|e| e.to_string()))
+    };
+    self.fault_outcome(["try_from", "try_from-other-thread"][via as usize & 1], kind, legacy, text, r)
+  }
+
+  fn fault_outcome(&mut self, vname: &str, kind: &str, legacy: bool, text: &str, r: Result<Result<(), String>, vh::panicmon::PanicRec>) -> String {
+    self.rep.inc("fault_ops");
+    if vname.ends_with("other-thread") {
+      self.rep.inc("fault_ops_other_thread");
+    }
+    let outcome = match r {
+      Err(p) => {
+        self.rep.violation(
+          &format!("faulty-endpoint-panic:{}@{}", vname, p.file_only()),
+          &format!("{} on a service with a faulty endpoint ({}) panicked: {} at {} ; data = {}", vname, kind, p.msg, p.loc(), head(text)),
+          json!({"via": vname, "fault_kind": kind, "legacy_wrapped": legacy, "endpoint_data": text.chars().take(2000).collect::<String>()}),
+        );
+        "panicked"
+      }
+      Ok(Err(_)) => {
+        self.rep.inc("fault_ops_rejected");
+        "rejected"
+      }
+      Ok(Ok(())) => {
+        self.rep.inc("fault_ops_accepted");
+        "accepted"
+      }
+    };
+    self.rep.distinct("nontrivial", &format!("fault|{}|{}|{}|{}", kind, if legacy { "legacy" } else { "modern" }, vname, outcome));
+    format!("{}:{}{}:{}", vname, kind, if legacy { "+legacy" } else { "" }, outcome)
+  }
+
+  /// A document holding one valid revocation service next to 1..3 services with faulty endpoints. Every decoding
+  /// entry point is fed the faulty ones in between; verdicts only on the valid service (reads, batches, validation).
+  fn fault_case(&mut self, rng: &mut Rng, thorough: bool, tag: u64) {
+    self.rep.eval();
+    self.rep.inc("fault_histories");
+    self.sigp = "after-faulty-endpoint:";
+    let iota = rng.chance(2, 5);
+    let mut doc = new_doc(iota, 1_000_000 + tag);
+    let did = doc.did();
+    let target = DIDUrl::parse(format!("{did}#revocation")).expect("url");
+    let shape = if rng.chance(3, 4) { *rng.pick(&["empty", "bounds", "small-low", "dense", "runs"]) } else { *rng.pick(SHAPES) };
+    let hcap = if rng.chance(1, 10) { self.cap.min(20_000) } else { 300 };
+    let mut model = gen_set(rng, shape, hcap);
+    let valid = match catch(|| bitmap_of(&model).to_service(target.clone())) {
+      Ok(Ok(s)) => s,
+      _ => {
+        self.rep.inc("fault_histories_setup_failed");
+        return;
+      }
+    };
+    let lib_text = endpoint_data(&valid);
+
+    struct Broken {
+      url: DIDUrl,
+      kind: &'static str,
+      legacy: bool,
+      text: String,
+      svc: Service,
+    }
+    let mut broken: Vec<Broken> = Vec::new();
+    for k in 0..1 + rng.usize(3) {
+      let basis = if rng.chance(1, 3) {
+        model.clone()
+      } else {
+        let sh = *rng.pick(&["bounds", "small-low", "dense", "runs", "sparse-full", "many-containers", "bitmap-random", "progression"]);
+        let c = if rng.chance(1, 8) { hcap } else { 300 };
+        gen_set(rng, sh, c)
+      };
+      let (kind, legacy, text) = gen_fault(rng, &basis, lib_text.as_deref());
+      let url = DIDUrl::parse(format!("{did}#broken-{k}")).expect("url");
+      match fault_service(&url.to_string(), kind, &text) {
+        Some(svc) => broken.push(Broken { url, kind, legacy, text, svc }),
+        None => self.rep.inc("fault_service_unbuildable"),
+      }
+    }
+    if broken.is_empty() {
+      self.rep.inc("fault_histories_setup_failed");
+      return;
+    }
+    let mut svcs: Vec<Service> = vec![valid, other_service(&did, "linked")];
+    svcs.extend(broken.iter().map(|b| b.svc.clone()));
+    rng.shuffle(&mut svcs);
+    for s in svcs {
+      doc.insert_service(s);
+    }
+    {
+      let svc = doc.core().resolve_service(&target).cloned().expect("target present");
+      if self.decode_and_compare("fault-history/initial", "modern", &svc, &model, &[], "inserted-service-mismatch", &json!({"doc": doc.kind()})) != Some(true) {
+        self.rep.inc("fault_histories_aborted");
+        return;
+      }
+    }
+
+    let steps = 2 + rng.usize(if thorough { 10 } else { 5 });
+    let mut trail: Vec<String> = Vec::new();
+    let mut digest = format!("{}|{}", doc.kind(), shape);
+    for step in 0..steps {
+      // ---- 1..2 operations on a faulty service
+      for _ in 0..1 + rng.usize(2) {
+        let b = &broken[rng.usize(broken.len())];
+        let via = rng.below(6);
+        let out = match via {
+          0 | 1 => self.fault_decode(via, &b.svc, b.kind, b.legacy, &b.text),
+          2 => {
+            let r = catch(|| doc.core().resolve_revocation_bitmap((&b.url).into()).map(|_| ()).map_err(|e| e.to_string()));
+            self.fault_outcome("resolve_revocation_bitmap", b.kind, b.legacy, &b.text, r)
+          }
+          3 | 4 => {
+            let idx: Vec<u32> = (0..rng.usize(4)).map(|_| rand_u32(rng)).collect();
+            let q = rng.below(4);
+            let r = catch(|| doc.batch(&b.url, q, via == 3, &idx));
+            self.fault_outcome(if via == 3 { "revoke_credentials" } else { "unrevoke_credentials" }, b.kind, b.legacy, &b.text, r)
+          }
+          _ => {
+            let mut cred = base_credential(&did);
+            cred.credential_status = Some(RevocationBitmapStatus::new(b.url.clone(), rand_u32(rng)).into());
+            let r = catch(|| doc.check_status(&cred, StatusCheck::Strict).map_err(|e| e.to_string()));
+            self.fault_outcome("check_status", b.kind, b.legacy, &b.text, r)
+          }
+        };
+        trail.push(out);
+      }
+
+      // ---- one observed operation on the valid service
+      let v = if step + 1 == steps { 0 } else { rng.below(6) };
+      let last_text = broken.iter().map(|b| json!({"id": b.url.to_string(), "kind": b.kind, "legacy_wrapped": b.legacy, "endpoint_data": b.text.chars().take(600).collect::<String>()})).collect::<Vec<_>>();
+      let case = json!({"doc": doc.kind(), "step": step, "set": preview(&model), "operations_before": trail.iter().rev().take(6).rev().collect::<Vec<_>>(), "faulty_services": last_text});
+      let extra: Vec<u32> = BOUNDS.iter().copied().take(8).collect();
+      let fine = match v {
+        0 | 1 => {
+          let svc = doc.core().resolve_service(&target).cloned().expect("target present");
+          let r = catch(|| RevocationBitmap::try_from(&svc).map(|b| compare(&b, &model, &extra)).map_err(|e| e.to_string()));
+          self.judge_read("try_from", r, &model, &case, "after_fault_reads_ok")
+        }
+        2 => {
+          let full = target.to_string();
+          let hfrag = format!("#{}", target.fragment().unwrap_or(""));
+          let qs: &str = if rng.bool() { full.as_str() } else { hfrag.as_str() };
+          let r = catch(|| doc.core().resolve_revocation_bitmap(qs.into()).map(|b| compare(&b, &model, &extra)).map_err(|e| e.to_string()));
+          self.judge_read("resolve_revocation_bitmap", r, &model, &case, "after_fault_reads_ok")
+        }
+        3 | 4 => {
+          let revoke = rng.chance(3, 5);
+          let members: Vec<u32> = model.iter().copied().take(2000).collect();
+          let idx: Vec<u32> = (0..1 + rng.usize(8))
+            .map(|_| match rng.below(3) {
+              0 if !members.is_empty() => *rng.pick(&members),
+              1 => *rng.pick(BOUNDS),
+              _ => rand_u32(rng),
+            })
+            .collect();
+          let q = rng.below(4);
+          self.rep.inc("after_fault_batches");
+          match catch(|| doc.batch(&target, q, revoke, &idx)) {
+            Err(p) => {
+              self.rep.violation(&format!("after-faulty-endpoint:batch-panic@{}", p.file_only()), &format!("batch on the valid service panicked: {} at {}", p.msg, p.loc()), case.clone());
+              false
+            }
+            Ok(Err(e)) => {
+              self.rep.violation(
+                "after-faulty-endpoint:batch-error",
+                &format!("{} of {:?} on a valid service (set {}) failed after operations {:?}: {}", if revoke { "revoke" } else { "unrevoke" }, idx, preview(&model), trail.iter().rev().take(3).collect::<Vec<_>>(), e),
+                json!({"case": case, "indices": idx, "error": e}),
+              );
+              false
+            }
+            Ok(Ok(())) => {
+              for &i in &idx {
+                if revoke {
+                  model.insert(i);
+                } else {
+                  model.remove(&i);
+                }
+              }
+              let svc = doc.core().resolve_service(&target).cloned().expect("target present");
+              let mut ex = extra.clone();
+              ex.extend(idx.iter().flat_map(|i| [*i, i.wrapping_add(1), i.wrapping_sub(1)]));
+              let case = json!({"case": case, "op": if revoke {"revoke"} else {"unrevoke"}, "indices": idx, "query_form": q});
+              let r = catch(|| RevocationBitmap::try_from(&svc).map(|b| compare(&b, &model, &ex)).map_err(|e| e.to_string()));
+              self.judge_read("try_from-after-batch", r, &model, &case, "after_fault_reads_ok")
+            }
+          }
+        }
+        _ => {
+          let mut probes: Vec<u32> = model.iter().copied().take(2).collect();
+          probes.extend(probes.clone().iter().map(|m| m.wrapping_add(1)));
+          probes.push(rand_u32(rng));
+          let before = self.rep.violations();
+          self.rep.inc("after_fault_status_rounds");
+          self.status_checks(&doc, &target, &model, &probes, "fault-history");
+          self.rep.violations() == before
+        }
+      };
+      if !fine {
+        self.rep.inc("fault_histories_aborted");
+        return;
+      }
+      digest.push_str(&format!("|{}", v));
+    }
+    self.rep.inc("fault_histories_completed");
+    self.rep.distinct("nontrivial", &format!("faulthist|{}", digest));
+  }
+
+  /// A document with several revocation services whose ids share a fragment (different DIDs) or have near-miss
+  /// fragments; each holds a different set. Everything addressed by full DID URL is judged against that service's model.
+  fn namesake_case(&mut self, rng: &mut Rng, thorough: bool, tag: u64) {
+    self.rep.eval();
+    self.rep.inc("namesake_cases");
+    self.sigp = "namesake:";
+    let iota = rng.chance(2, 5);
+    let mut doc = new_doc(iota, 2_000_000 + tag);
+    let did = doc.did();
+    let mut foreign: Vec<String> = vec!["did:example:other".to_string(), format!("{did}0"), did[..did.len() - 1].to_string()];
+    foreign.push(if iota { did.replacen("did:iota:", "did:iota:rms:", 1) } else { did.replacen("c06x", "C06X", 1) });
+    rng.shuffle(&mut foreign);
+
+    // ---- which services
+    let mut ids: Vec<String> = vec![format!("{did}#revocation")];
+    for f in foreign.iter().take(1 + rng.usize(3)) {
+      ids.push(format!("{f}#revocation"));
+    }
+    for (d, frag) in [(&did, "revocation-2"), (&did, "Revocation"), (&did, "revocatio"), (&foreign[0], "revocation-2")] {
+      if rng.chance(1, 3) {
+        ids.push(format!("{d}#{frag}"));
+      }
+    }
+    let urls: Vec<DIDUrl> = ids.iter().map(|i| DIDUrl::parse(i).expect("service id")).collect();
+    let k = urls.len();
+    // one index per service that no other service holds initially, plus shared probes held by random subsets
+    let mut pool: Vec<u32> = BOUNDS.to_vec();
+    rng.shuffle(&mut pool);
+    let own: Vec<u32> = pool[..k].to_vec();
+    let shared: Vec<u32> = pool[k..k + 6].to_vec();
+    let mut models: Vec<BTreeSet<u32>> = Vec::new();
+    for j in 0..k {
+      let sh = *rng.pick(&["empty", "bounds", "small-low", "dense", "runs", "sparse-full"]);
+      let mut m = gen_set(rng, sh, 200);
+      for o in &own {
+        m.remove(o);
+      }
+      if !rng.chance(1, 8) {
+        m.insert(own[j]);
+      }
+      for s in &shared {
+        if rng.bool() {
+          m.insert(*s);
+        } else {
+          m.remove(s);
+        }
+      }
+      models.push(m);
+    }
+    let mut svcs: Vec<Service> = Vec::new();
+    for j in 0..k {
+      match catch(|| bitmap_of(&models[j]).to_service(urls[j].clone())) {
+        Ok(Ok(s)) => svcs.push(s),
+        _ => {
+          self.rep.inc("namesake_setup_failed");
+          return;
+        }
+      }
+    }
+    svcs.push(other_service(&did, "linked"));
+    if rng.chance(1, 3) {
+      // a namesake that is not a revocation service at all
+      svcs.push(other_service("did:example:linked", "revocation"));
+    }
+    rng.shuffle(&mut svcs);
+    let order: Vec<String> = svcs.iter().map(|s| s.id().to_string()).collect();
+    for s in svcs {
+      doc.insert_service(s);
+    }
+    let frag_of = |id: &str| id.rsplit('#').next().unwrap_or("").to_string();
+    let unique_fragment = |j: usize| order.iter().filter(|o| frag_of(o) == frag_of(&ids[j])).count() == 1;
+    for j in 0..k {
+      let pos = order.iter().position(|o| *o == ids[j]).expect("inserted");
+      if order[..pos].iter().any(|o| frag_of(o) == frag_of(&ids[j])) {
+        self.rep.inc("namesake_targets_shadowed"); // a service with the same fragment precedes it in the document
+      }
+    }
+    self.rep.count("namesake_services", k as u64);
+
+    let mut probes: Vec<u32> = own.clone();
+    probes.extend_from_slice(&shared);
+    let read_all = |cx: &mut Cx, doc: &Doc, models: &Vec<BTreeSet<u32>>, rng: &mut Rng, ctx: &Value| -> bool {
+      for j in 0..k {
+        let case = json!({"doc": doc.kind(), "service": ids[j], "services_in_document_order": order, "context": ctx});
+        let fine = if rng.bool() {
+          let svc = match doc.core().resolve_service(&urls[j]).cloned() {
+            Some(s) => s,
+            None => {
+              cx.rep.violation("namesake:service-not-resolved", &format!("resolve_service({}) finds nothing in a document listing {:?}", ids[j], order), case);
+              return false;
+            }
+          };
+          if svc.id() != &urls[j] {
+            cx.rep.violation("namesake:resolve_service-wrong-service", &format!("resolve_service({}) returns service {}", ids[j], svc.id()), case);
+            return false;
+          }
+          let r = catch(|| RevocationBitmap::try_from(&svc).map(|b| compare(&b, &models[j], &probes)).map_err(|e| e.to_string()));
+          cx.judge_read("try_from", r, &models[j], &case, "namesake_reads_ok")
+        } else {
+          let r = if rng.bool() {
+            catch(|| doc.core().resolve_revocation_bitmap((&urls[j]).into()).map(|b| compare(&b, &models[j], &probes)).map_err(|e| e.to_string()))
+          } else {
+            catch(|| doc.core().resolve_revocation_bitmap(ids[j].as_str().into()).map(|b| compare(&b, &models[j], &probes)).map_err(|e| e.to_string()))
+          };
+          cx.judge_read("resolve_revocation_bitmap", r, &models[j], &case, "namesake_reads_ok")
+        };
+        if !fine {
+          return false;
+        }
+      }
+      true
+    };
+
+    // ---- reads and validation verdicts, every service
+    if !read_all(self, &doc, &models, rng, &json!("initial")) {
+      self.rep.inc("namesake_aborted");
+      return;
+    }
+    for j in 0..k {
+      let mut p = probes.clone();
+      p.extend(models[j].iter().copied().take(2));
+      p.push(rand_u32(rng));
+      let before = self.rep.violations();
+      self.rep.inc("namesake_status_rounds");
+      self.status_checks(&doc, &urls[j], &models[j], &p, "namesake");
+      if self.rep.violations() != before {
+        self.rep.inc("namesake_aborted");
+        return;
+      }
+    }
+
+    // ---- batches addressed to one of them: the others keep their sets
+    let nb = 1 + rng.usize(if thorough { 6 } else { 3 });
+    let mut digest = format!("{}|k{}", doc.kind(), k);
+    for step in 0..nb {
+      let j = rng.usize(k);
+      let revoke = rng.chance(3, 5);
+      let mut idx: Vec<u32> = Vec::new();
+      for _ in 0..1 + rng.usize(6) {
+        idx.push(match rng.below(5) {
+          0 => *rng.pick(&own),
+          1 => *rng.pick(&shared),
+          2 if !models[j].is_empty() => *models[j].iter().nth(rng.usize(models[j].len().min(50))).expect("member"),
+          3 => {
+            let o = &models[rng.usize(k)];
+            if o.is_empty() { rand_u32(rng) } else { *o.iter().nth(rng.usize(o.len().min(50))).expect("member") }
+          }
+          _ => rand_u32(rng),
+        });
+      }
+      // fragment-only queries only where the fragment names one service of the document (otherwise any namesake may legitimately answer)
+      let q = if unique_fragment(j) { rng.below(4) } else { rng.below(2) };
+      let mut before = doc.value();
+      let before_ep = strip_endpoint(&mut before, &ids[j]);
+      let case = json!({"doc": doc.kind(), "step": step, "op": if revoke {"revoke"} else {"unrevoke"}, "service": ids[j], "query_form": q, "indices": idx,
+                        "services_in_document_order": order, "set_before": preview(&models[j]), "endpoint_before": before_ep.as_ref().and_then(|v| v.as_str()).map(head)});
+      self.rep.inc("namesake_batches");
+      match catch(|| doc.batch(&urls[j], q, revoke, &idx)) {
+        Err(p) => {
+          self.rep.violation(&format!("namesake:batch-panic@{}", p.file_only()), &format!("batch on {} panicked: {} at {}", ids[j], p.msg, p.loc()), case);
+          self.rep.inc("namesake_aborted");
+          return;
+        }
+        Ok(Err(e)) => {
+          self.rep.violation("namesake:batch-error", &format!("{} of {:?} on valid service {} (document lists {:?}) failed: {}", if revoke { "revoke" } else { "unrevoke" }, idx, ids[j], order, e), case);
+          self.rep.inc("namesake_aborted");
+          return;
+        }
+        Ok(Ok(())) => {}
+      }
+      for &i in &idx {
+        if revoke {
+          models[j].insert(i);
+        } else {
+          models[j].remove(&i);
+        }
+      }
+      let mut after = doc.value();
+      let after_ep = strip_endpoint(&mut after, &ids[j]);
+      if after != before || after_ep.is_none() {
+        self.rep.violation(
+          "namesake:batch-changes-rest-of-document",
+          &format!("a {} batch addressed to {} changed the document outside that service's endpoint (document lists {:?})", if revoke { "revoke" } else { "unrevoke" }, ids[j], order),
+          json!({"case": case, "before": before, "after": after}),
+        );
+        self.rep.inc("namesake_aborted");
+        return;
+      }
+      if !read_all(self, &doc, &models, rng, &case) {
+        self.rep.inc("namesake_aborted");
+        return;
+      }
+      let other = rng.usize(k);
+      for t in [j, other] {
+        let mut p: Vec<u32> = idx.iter().take(3).copied().collect();
+        p.push(own[t]);
+        p.push(*rng.pick(&shared));
+        let before = self.rep.violations();
+        self.rep.inc("namesake_status_rounds");
+        self.status_checks(&doc, &urls[t], &models[t], &p, "namesake/after-batch");
+        if self.rep.violations() != before {
+          self.rep.inc("namesake_aborted");
+          return;
+        }
+      }
+      digest.push_str(&format!("|{}q{}", if revoke { 'r' } else { 'u' }, q));
+    }
+    self.rep.inc("namesake_completed");
+    self.rep.distinct("nontrivial", &format!("namesake|{}", digest));
+  }
+
   /// One history of revoke/unrevoke batches on a document with three services.
   fn history_case(&mut self, rng: &mut Rng, thorough: bool, tag: u64) {
     self.rep.eval();
     self.rep.inc("histories");
+    self.sigp = "";
     let iota = rng.chance(2, 5);
     let mut doc = new_doc(iota, tag);
     let did = doc.did();
@@ -1062,12 +1724,15 @@ fn main() {
   let args = Args::parse();
   let scale = args.extra_u64("scale", 1000).max(1);
   let cap = ((100_000u64 * scale / 1000) as usize).max(300);
-  let mut cx = Cx { rep: Report::new("C06"), cap };
+  let mut cx = Cx { rep: Report::new("C06"), cap, sigp: "" };
   cx.rep.rule(
     "cases = index sets (exhaustive small families: boundary singletons/pairs, prefixes {0..n}, k-term progressions; seeded random sets of 12 shapes, \
      sizes 0..1e5) each encoded by the library and decoded in modern form, legacy double-encoded form and after a service JSON round trip, plus \
-     histories of revoke/unrevoke batches on CoreDocument/IotaDocument with three services; non-trivial+distinct = set classes \
-     (shape, log2 size, log2 containers, first deflate block type + 3rd base64 char) and history digests (doc kind, initial shape, per batch op/size class/query form)",
+     histories of revoke/unrevoke batches on CoreDocument/IotaDocument with three services, fault histories (faulty endpoints of 19 kinds fed to \
+     every decoding entry point, same and other thread, in between observed reads/batches/validations of a valid service) and namesake documents \
+     (2..8 revocation services sharing a fragment under different DIDs or with near-miss fragments, each with its own set); non-trivial+distinct = set classes \
+     (shape, log2 size, log2 containers, first deflate block type + 3rd base64 char), history digests (doc kind, initial shape, per batch op/size class/query form), \
+     fault classes (kind, legacy wrapping, entry point, outcome), fault-history and namesake digests",
   );
   let mut rng = args.rng(6);
   let thorough = args.thorough;
@@ -1147,6 +1812,20 @@ fn main() {
   let per_shard = (n_hist * scale / 1000 / args.nshards.max(1)).max(4);
   for k in 0..per_shard {
     guarded(&mut cx, "history-case", |cx| cx.history_case(&mut rng, thorough, k));
+  }
+
+  // ---- fault histories: faulty endpoints in between the observed operations on a valid service
+  let n_fault: u64 = if thorough { 8_000 } else { 320 };
+  let per_shard = (n_fault * scale / 1000 / args.nshards.max(1)).max(3);
+  for k in 0..per_shard {
+    guarded(&mut cx, "fault-case", |cx| cx.fault_case(&mut rng, thorough, k));
+  }
+
+  // ---- namesake documents: several revocation services sharing a fragment
+  let n_names: u64 = if thorough { 6_000 } else { 240 };
+  let per_shard = (n_names * scale / 1000 / args.nshards.max(1)).max(3);
+  for k in 0..per_shard {
+    guarded(&mut cx, "namesake-case", |cx| cx.namesake_case(&mut rng, thorough, k));
   }
 
   cx.rep.note("size_cap", json!(cap));
